@@ -85,6 +85,8 @@ const (
 )
 
 type EngineB struct {
+	kindInfo                        *kindInfo
+	kindFlow                        map[*ssa.Function]*kfunc
 	p                               *Program
 	entry                           *ssa.Function
 	pts                             map[ssa.Value]locset
@@ -477,6 +479,9 @@ func (e *EngineB) doInstr(f *ssa.Function, in ssa.Instruction) {
 		for i, r := range x.Results {
 			if knownNilAt(r, x.Block()) {
 				continue // `if p == nil { return p }` returns nil, not the argument
+			}
+			if e.pointerFreeKindsAt(f, r, x.Block()) {
+				continue // a geometry interface that can only hold a Point or a Bound here: a value, no memory to share
 			}
 			if mayPoint(r.Type()) && rs[i].addAll(e.get(r)) {
 				e.changed = true
@@ -957,4 +962,39 @@ func instrOrdinal(in ssa.Instruction) string {
 		}
 	}
 	return "?"
+}
+
+// pointerFreeKindsAt: r is a value of the geometry interface type and the
+// kind typestate of f shows that only Point, Bound (or nil) can arrive in
+// block b.  Such a value references no memory.
+func (e *EngineB) pointerFreeKindsAt(f *ssa.Function, r ssa.Value, b *ssa.BasicBlock) bool {
+	if !e.p.IsGeometry(r.Type()) {
+		return false
+	}
+	if e.kindInfo == nil {
+		e.kindInfo = newKindInfo(e.p)
+		e.kindFlow = map[*ssa.Function]*kfunc{}
+	}
+	ki := e.kindInfo
+	kf := e.kindFlow[f]
+	if kf == nil {
+		kf = &kfunc{fn: f, reach: map[string]kindset{}, storedFields: map[string]bool{}, open: true}
+		for _, par := range f.Params {
+			if e.p.IsGeometry(par.Type()) {
+				kf.reach[kf.key(par)] = ki.all
+			}
+		}
+		ki.analyse(kf)
+		e.kindFlow[f] = kf
+	}
+	if b.Index >= len(kf.in) || kf.in[b.Index] == nil {
+		return false
+	}
+	var pf kindset = ki.nilBit
+	for i, n := range ki.names {
+		if n == "Point" || n == "Bound" {
+			pf |= 1 << uint(i)
+		}
+	}
+	return ki.valueSet(kf, kf.in[b.Index], r)&^pf == 0
 }
